@@ -68,6 +68,7 @@ type HarnessStats struct {
 	SampleSMT   string
 	SamplePaths []string
 	Capped      bool
+	AuditUnknown int
 	first       time.Time
 	HasDeeper   bool // the harness asked for a bound (or a thorough-only variant) that is larger in the thorough tier
 	NoDeeper    bool // Deep pass skipped: nothing deeper to explore
@@ -286,6 +287,7 @@ func (sh *Shared) merge(st *HarnessStats, ex *Exec, reason string, prefixLen int
 	st.Steps += int64(ex.steps)
 	st.Rewrites += r.rewrites
 	st.Audits += r.audits
+	st.AuditUnknown += r.auditUnknown
 	st.ByModel += r.byModel
 	st.Folded += r.folded
 	st.MonitorChecks += r.monitorChecks
